@@ -27,6 +27,8 @@ def dec_parts(x):
 
 
 def lit(x):
+    if isinstance(x, complex):
+        return "(%r%s%rj)" % (x.real, "+-"[x.imag < 0], abs(x.imag))
     return "(%s)" % (repr(x) if isinstance(x, float) else str(int(x)))
 
 
@@ -40,8 +42,16 @@ def gen_template(rng, i):
     for _ in range(n):
         r = rng.random()
         if rng.random() < 0.12:
-            r = rng.choice([0.405, 0.42, 0.432, 0.436, 0.439, -1.0])       # the narrow special families below, each with a real share
-        if r < 0:
+            r = rng.choice([0.405, 0.42, 0.432, 0.436, 0.439, -1.0, -2.0])       # the narrow special families below, each with a real share
+        if r < -1.5:
+            # a whole COMPLEX array given by one parameter; the value is a complex NumPy array (e.g. a unitary)
+            nm = g.fresh("UC")
+            p = g.fresh("Mcpx")
+            arrays[p] = (2, 2)
+            lines.append("complex array %s[2, 2] =\n    {%s}" % (nm, p))
+            lines.append("Interferometer(%s) | [0, 1]" % nm)
+            lines.append(rng.choice(["Coherent(%s[1] * 2, phi=%s[2] + 0.25) | 0", "Kgate(%s[3], k=%s[0]) | 1"]) % (nm, nm))
+        elif r < 0:
             # a parameter that occurs ONLY inside a list-valued keyword argument, next to plain values
             p = g.fresh(rng.choice(["a", "ph", "lst"]))
             g.params.append(p)
@@ -153,6 +163,9 @@ def values_for(rng, names, arrays):
             continue
         sg[p] = rng.choice([round(rng.uniform(0.1, 3.0), rng.randint(1, 6)), rng.randint(1, 9), -round(rng.uniform(0.1, 3.0), 3)])
     for p, (r, c) in arrays.items():
+        if p.startswith("Mcpx"):
+            sg[p] = [[complex(round(rng.uniform(-1, 1), 3), round(rng.uniform(0.1, 1), 3) * rng.choice([1, -1])) for _ in range(c)] for _ in range(r)]
+            continue
         if p.startswith("Mint"):
             sg[p] = [[rng.choice([3, 7, 12, 40000, 2 ** 20]) for _ in range(c)] for _ in range(r)]      # products stay far inside int64
             continue
@@ -266,6 +279,9 @@ def check_case(res, model, impl, text, names, arrays, sg, stats):
     before = impl.blackbird.dumps(t) if False else None
     sg_call = dict(sg)
     for k_, v_ in sg.items():
+        if isinstance(v_, list) and k_.startswith("Mcpx"):
+            sg_call[k_] = np.array(v_)              # a complex NumPy array
+            continue
         if isinstance(v_, list) and zlib.crc32(repr(v_).encode()) % 2 == 0 and not k_.startswith("Mint"):      # (Mint*: nested lists of Python integers, kept as they are)
             # the same 2-D value as a NumPy array that is not in C memory order (transposed view / Fortran order / reversed rows of a flipped copy)
             a_ = np.array(v_)
@@ -299,6 +315,8 @@ def check_case(res, model, impl, text, names, arrays, sg, stats):
                     flat["%s_%d_%d" % (k, i, j)] = x
         else:
             flat[k] = v
+    if any(isinstance(v, complex) for v in flat.values()):
+        return None             # the model's instantiate takes real decimal values; the implementation-level predicate above has spoken
     fields = ["INSTANTIATE", observe.enc("/"), observe.enc(text)]
     for k, v in flat.items():
         m, e = dec_parts(v)
